@@ -280,6 +280,21 @@ theorem defined_names_in_order_xlsb (pf : Bytes → List Text → List (Text × 
   cases h
   rfl
 
+set_option maxRecDepth 8000 in
+/-- satisfiable: one sheet "A", an ExternSheet whose entries point at this workbook, at sheet 0 and at a missing
+    sheet, an unknown record with payload, and two names; the stand-in formula decoder shows which extern-sheet
+    table and how many earlier names it was handed -/
+example :
+    readWorkbookXlsb (fun rg ext names => .ok ((ext.getD 1 []) ++ [33] ++ rg.map (·.toNat) ++ [48 + names.length]))
+      [([114, 73, 100, 49], "worksheets/sheet1.bin")]
+      (encodeWorkbookBin [.sheet ⟨.visible, 1, [114, 73, 100, 49], [65]⟩ false 0] false 0
+        ([NRec.extern [(0, 0xFFFFFFFE, 0xFFFFFFFE), (0, 0, 0), (0, 7, 7)] false 0, .other 0x0C00 [0x27, 0x6A] true 2,
+          .name ⟨0, 0xFFFFFFFF, [110, 0x416], [7], [0, 0, 0, 0]⟩ false 0,
+          .name ⟨2, 0, [98], [8, 9], []⟩ true 4].flatMap NRec.bytes ++ Xlsb.frame 0x0084 [] false 0)) =
+      .ok (⟨[⟨[65], .workSheet, .visible⟩], [([110, 0x416], [65, 33, 7, 48]), ([98], [65, 33, 8, 9, 49])], false⟩,
+           ["xl/worksheets/sheet1.bin".toList]) := by
+  decide
+
 /-- **xlsb: the date-system flag** is bit 0 of BrtWbProp -/
 theorem date1904_flag_xlsb (pf : Bytes → List Text → List (Text × Text) → Res Text) (rels : List (Text × String))
     (recs : List WRec) (hall : ∀ r ∈ recs, r.ok rels) (ew : Bool) (el : Nat)
